@@ -115,6 +115,10 @@ enum Kind {
     Managed,
     ZcSend,
     Accept,
+    /// the listener's stream of connections: several clients connect at once, the actor takes the first
+    /// connections it is given and drops the stream with the others (accepted by the kernel already) still
+    /// queued in it
+    Incoming,
     FileRead,
     FileWrite,
     Open,
@@ -142,7 +146,7 @@ struct Actor {
 }
 
 fn gen_actor(prev: Option<&Actor>) -> Actor {
-    let kind = [Kind::Recv, Kind::RecvVectored, Kind::PipeRead, Kind::Multi, Kind::Managed, Kind::ZcSend, Kind::Accept, Kind::FileRead, Kind::FileWrite, Kind::Open, Kind::PoolJob][sim::choose("actor.kind", 11)];
+    let kind = [Kind::Recv, Kind::RecvVectored, Kind::PipeRead, Kind::Multi, Kind::Managed, Kind::ZcSend, Kind::Accept, Kind::FileRead, Kind::FileWrite, Kind::Open, Kind::PoolJob, Kind::Incoming][sim::choose("actor.kind", 12)];
     let t = |k: &'static str| 1 + sim::range(k, 0, 30);
     let abandon = match sim::choose("actor.abandon", 4) {
         0 => Abandon::None,
@@ -218,7 +222,11 @@ fn lifecycle() -> RunResult {
                     } else {
                         None
                     };
-                    let fut = actor(i, a.clone(), data, reg.clone(), errs.clone(), keep.clone(), dir.clone(), run_no, sock);
+                    // (a socket is shared when a later Recv actor joins it: then either receive may get the bytes)
+                    let joined_later = a.kind == Kind::Recv && actors[i + 1..].iter().take_while(|b| !(b.kind == Kind::Recv && !b.share_prev)).any(|b| b.kind == Kind::Recv && b.share_prev);
+                    let mut a_for_actor = a.clone();
+                    a_for_actor.share_prev |= joined_later;
+                    let fut = actor(i, a_for_actor, data, reg.clone(), errs.clone(), keep.clone(), dir.clone(), run_no, sock);
                     let (tok, errs_a) = (token.clone(), errs.clone());
                     let h = compio_runtime::spawn(async move {
                         match a.abandon {
@@ -406,6 +414,35 @@ async fn actor(i: usize, a: Actor, data: Vec<u8>, reg: Rc<Registry>, errs: Errs,
                 // delivered: ours to close
                 let _ = s.close().await;
             }
+        }
+        Kind::Incoming => {
+            use std::os::{linux::net::SocketAddrExt, unix::net::SocketAddr};
+            let name = format!("verif-k-life-in-{}-{run_no}-{i}", std::process::id());
+            let addr = SocketAddr::from_abstract_name(name.as_bytes()).expect("abstract address");
+            let l = compio_net::UnixListener::from_std(std::os::unix::net::UnixListener::bind_addr(&addr).expect("bind")).expect("from_std");
+            let clients = 2 + a.len % 3;
+            let take = a.len % 2 + 1;
+            if let Some(t) = a.event_at {
+                let keep = keep.clone();
+                simkernel::at(at(t), format!("{clients} clients connect to actor {i}'s listener"), move || {
+                    for _ in 0..clients {
+                        if let Ok(s) = std::os::unix::net::UnixStream::connect_addr(&addr) {
+                            keep.borrow_mut().push(Box::new(s));
+                        }
+                    }
+                });
+            }
+            let mut st = l.incoming().boxed_local();
+            for _ in 0..take {
+                match st.next().await {
+                    Some(Ok(s)) => {
+                        // delivered: ours to close
+                        let _ = s.close().await;
+                    }
+                    _ => break,
+                }
+            }
+            // dropped with whatever it still holds
         }
         Kind::FileRead | Kind::FileWrite => {
             let path = dir.join(format!("f{i}"));
